@@ -1827,7 +1827,8 @@ class PseudoNetCDFFile(PseudoNetCDFSelfReg, object):
                     sh = tstep // 10000 * 3600
                     sm = tstep % 10000 // 100 * 60
                     ss = tstep % 100
-                    dt = timedelta(seconds=sh + sm + ss)
+                    # an attribute read from a file is a numpy scalar
+                    dt = timedelta(seconds=int(sh + sm + ss))
                 else:
                     dts = np.diff(out)
                     dt = dts.mean()
